@@ -111,6 +111,17 @@ type Specs struct {
 	TypeInvs map[string]bool // predicate names that are object invariants (implicit precondition of every interface call)
 	Abstractions map[string]*Pred // ghost name -> definition over the implementing type's fields (refinement checks)
 	Writers []WriterRule
+	Locked  []LockRule
+}
+
+// LockRule: in Func, every call to one of Calls happens while the mutex in field Field of the receiver is held
+// (static dominance check: a Lock on that field dominates the call, no Unlock on it can run before the call).
+type LockRule struct {
+	Prop  string
+	Func  string
+	Field string
+	Calls []string
+	Where string
 }
 
 // WriterRule: the listed fields of a struct type may only be stored to inside the listed functions (static scan).
@@ -141,7 +152,7 @@ func extractSpecLines(text string) (lines []string, nums []int) {
 }
 
 var clauseKeywords = []string{"requires", "ensures", "modifies", "loop", "invariant", "decreases", "let", "fresh", "pure", "trusted", "effect", "crash", "havoc", "assume", "refines", "ghostinit"}
-var blockKeywords = []string{"func", "invoke", "ghost", "spec", "pred", "axiom", "global", "abstraction", "writers", "typeinv", "callbackframe"}
+var blockKeywords = []string{"func", "invoke", "ghost", "spec", "pred", "axiom", "global", "abstraction", "writers", "typeinv", "callbackframe", "locked"}
 
 func firstWord(s string) (string, string) {
 	s = strings.TrimSpace(s)
@@ -454,6 +465,21 @@ func (sp *Specs) parseSpecText(file, text, pkgPath string) {
 					sp.CallbackFrame = append(sp.CallbackFrame, ty)
 				}
 			}
+		case "locked":
+			cur = nil
+			// locked <PROP> <func key> field <name> calls a, b
+			m := regexp.MustCompile(`^(C[0-9]+)\s+(\S+)\s+field\s+(\S+)\s+calls\s+(.*)$`).FindStringSubmatch(rest)
+			if m == nil {
+				sp.errf(where, "bad locked rule")
+				continue
+			}
+			lr := LockRule{Prop: m[1], Func: m[2], Field: m[3], Where: where}
+			for _, c := range strings.Split(m[4], ",") {
+				if c = strings.TrimSpace(c); c != "" {
+					lr.Calls = append(lr.Calls, c)
+				}
+			}
+			sp.Locked = append(sp.Locked, lr)
 		case "writers":
 			cur = nil
 			// writers <pkgpath.Type> fields f1,f2 only <func key>; <func key>
